@@ -40,6 +40,8 @@ type dnsTable struct {
 	mu      sync.Mutex
 	recs    map[string][]net.IP
 	queries map[string]int
+	delay   map[string]time.Duration // answers to questions about this name are held back that long
+	delayed map[string]int           // answers that were held back and then sent
 }
 
 func (t *dnsTable) set(name string, ips []string) {
@@ -65,7 +67,16 @@ func (t *dnsTable) handle(w dns.ResponseWriter, r *dns.Msg) {
 	t.mu.Lock()
 	ips, ok := t.recs[strings.ToLower(q.Name)]
 	t.queries[strings.ToLower(q.Name)]++
+	hold := t.delay[strings.ToLower(q.Name)]
 	t.mu.Unlock()
+	if hold > 0 {
+		time.Sleep(hold) // a slow DNS server: the answer still arrives
+		defer func() {
+			t.mu.Lock()
+			t.delayed[strings.ToLower(q.Name)]++
+			t.mu.Unlock()
+		}()
+	}
 	if !ok {
 		m.SetRcode(r, dns.RcodeNameError)
 		w.WriteMsg(m)
@@ -89,7 +100,7 @@ func (t *dnsTable) handle(w dns.ResponseWriter, r *dns.Msg) {
 // startDNS serves the table on a loopback UDP socket and points net.DefaultResolver
 // (which dnscache.Resolver{} uses) at it.
 func startDNS() (*dnsTable, error) {
-	t := &dnsTable{recs: map[string][]net.IP{}, queries: map[string]int{}}
+	t := &dnsTable{recs: map[string][]net.IP{}, queries: map[string]int{}, delay: map[string]time.Duration{}, delayed: map[string]int{}}
 	pc, err := net.ListenPacket("udp", "127.0.0.1:0")
 	if err != nil {
 		return nil, err
@@ -1098,6 +1109,7 @@ func runC18(c *run.Ctx, s *kit.Summary) {
 	realDialScenarios(s, table, tag)
 	refreshScenario(s, table, tag)
 	refreshIdleScenario(s, table, tag)
+	composeStream(c, s, r, table, tag)
 	e2eDial(c, s, table, table.addr, tag)
 
 	// custom resolver rotation (package internal/resolver, reached through the vegeta binary)
